@@ -37,8 +37,9 @@ def one(sd):
         shutil.rmtree(d, ignore_errors=True)
 
 
-kinds = sys.argv[1:] or ['seeded', 'refactors']
-dirs = [sd for k in kinds for sd in sorted(glob.glob('/verif/%s/*' % k))]
+kinds = [a for a in sys.argv[1:] if a in ('seeded', 'refactors')] or ['seeded', 'refactors']
+pats = [a for a in sys.argv[1:] if a not in ('seeded', 'refactors')] or ['*']      # optional name globs, e.g. 'B6*'
+dirs = sorted({sd for k in kinds for pt in pats for sd in glob.glob('/verif/%s/%s' % (k, pt))})
 with ThreadPoolExecutor(12) as ex:
     for name, now in ex.map(one, dirs):
         print(name, {k: (v['rc'], v['rules']) for k, v in now.items()})
